@@ -20,7 +20,7 @@ def _canon_root(p):
 
 
 def scan(roots, *, hidden=False, follow=False, report_links=False, depth=None, min_size=1,
-         max_size=None, name_filter=None):
+         max_size=None, name_filter=None, blocked=()):
     """-> dict: selected absolute path (bytes) -> (ident, size).
     roots: absolute bytes paths as the user gave them (after joining with cwd)."""
     selected = {}
@@ -40,6 +40,8 @@ def scan(roots, *, hidden=False, follow=False, report_links=False, depth=None, m
         selected[path] = ((st.st_dev, st.st_ino), st.st_size)
 
     def visit(path, level):
+        if path in blocked:
+            return
         try:
             lst = os.lstat(path)
         except OSError:
@@ -112,11 +114,16 @@ def read_key(path, transform=None):
     return (len(d), hashlib.sha256(d).hexdigest())
 
 
-def partition(selected, transform=None):
+def content_keys(selected, transform=None):
+    """snapshot of the content key of every selected path (take it BEFORE a run that edits the tree)"""
+    return {p: read_key(p, transform) for p in selected}
+
+
+def partition(selected, transform=None, keys=None):
     """-> {content key: [paths]}"""
     classes = {}
     for p in selected:
-        k = read_key(p, transform)
+        k = keys.get(p) if keys is not None else read_key(p, transform)
         if k is None:
             continue
         classes.setdefault(k, []).append(p)
@@ -157,10 +164,10 @@ def reported(count, *, rf_over=None, rf_under=None, unique=False, transform=Fals
 
 
 def expected_groups(selected, *, transform=None, match_links=False, isolate_roots=None, rf_over=None,
-                    rf_under=None, unique=False):
+                    rf_under=None, unique=False, keys=None):
     """-> sorted list of sorted path tuples the report must contain"""
     out = []
-    for k, paths in partition(selected, transform).items():
+    for k, paths in partition(selected, transform, keys).items():
         c = replicas(paths, selected, match_links=match_links, isolate_roots=isolate_roots)
         if reported(c, rf_over=rf_over, rf_under=rf_under, unique=unique, transform=transform is not None):
             out.append(tuple(sorted(paths)))
